@@ -280,8 +280,11 @@ def check_abandon(T, api, be, Loader, block):
             if api in ('scan', 'parse', 'compose_all', 'load_all') and started:
                 if len(disposed) != 1:
                     T.violation('abandon', 'dispose-count', case, detail='%s/%s %s: dispose() called %d times' % (be, api, mode, len(disposed)))
-            if not started and len(disposed) > 1:
-                T.violation('abandon', 'dispose-count', case, detail='%s/%s %s: dispose() called %d times' % (be, api, mode, len(disposed)))
+            if not started and len(disposed) != len(refs):
+                # an unstarted generator may not have built its loader at all; if it did, it owes it a dispose()
+                T.violation('abandon', 'dispose-count', case, detail='%s/%s %s: %d loader(s) were created but dispose() was called %d times' % (be, api, mode, len(refs), len(disposed)))
+            if not started and calls:
+                T.count('reads-before-first-item')
             if st.calls != calls:
                 T.violation('abandon', 'read-after-abandon', case, detail='%s/%s %s: %d further read() calls after the iteration was abandoned' % (be, api, mode, st.calls - calls))
             if any(r() is not None for r in refs):
